@@ -2,6 +2,7 @@ package pongo2
 
 type tagWithNode struct {
 	withPairs map[string]IEvaluator
+	withOrder []string // the names in the order they are written
 	wrapper   *NodeWrapper
 }
 
@@ -10,7 +11,10 @@ func (node *tagWithNode) Execute(ctx *ExecutionContext, writer TemplateWriter) *
 	withctx := NewChildExecutionContext(ctx)
 
 	// Put all custom with-pairs into the context
-	for key, value := range node.withPairs {
+	// (in written order: which pair is evaluated first - and fails first - must not
+	// depend on the iteration order of a map)
+	for _, key := range node.withOrder {
+		value := node.withPairs[key]
 		val, err := value.Evaluate(ctx)
 		if err != nil {
 			return err
@@ -63,6 +67,9 @@ func tagWithParser(doc *Parser, start *Token, arguments *Parser) (INodeTag, *Err
 			if keyToken == nil {
 				return nil, arguments.Error("Expected an identifier", nil)
 			}
+			if _, has := withNode.withPairs[keyToken.Val]; !has {
+				withNode.withOrder = append(withNode.withOrder, keyToken.Val)
+			}
 			withNode.withPairs[keyToken.Val] = valueExpr
 		} else {
 			keyToken := arguments.MatchType(TokenIdentifier)
@@ -75,6 +82,9 @@ func tagWithParser(doc *Parser, start *Token, arguments *Parser) (INodeTag, *Err
 			valueExpr, err := arguments.ParseExpression()
 			if err != nil {
 				return nil, err
+			}
+			if _, has := withNode.withPairs[keyToken.Val]; !has {
+				withNode.withOrder = append(withNode.withOrder, keyToken.Val)
 			}
 			withNode.withPairs[keyToken.Val] = valueExpr
 		}
